@@ -42,7 +42,7 @@ def execute(case):
     return {'violations': viol, 'digest': digest, 'probes': {'c04_order_run': 1, 'c04_order_run_mixed_references': int(len(refs) > 1)},
             'faults': {'validation_order_permuted': 1}, 'nontrivial': len(refs) > 1, 'ilv': '', 'sim_us': 0, 'lines': 0,
             'schedule': [], 'fault_plan': [], 'states': [], 'ops': len(case['items']),
-            'sample': {'items': [{'ref': it['ref'], 'edits': it['edits'], 'text': it['text'][:80]} for it in case['items']],
+            'sample': {'items': [{'ref': it['ref'], 'edits': it['edits'], 'text': str(it.get('text', it.get('fields')))[:80]} for it in case['items']],
                        'orders': case['orders']}}
 
 
